@@ -290,7 +290,8 @@ def build_theory(th):
         return AberratedMieLens(spherical_aberration=th["ab"], lens_angle=th["lens_angle"],
                                 calculator_accuracy_kwargs=dict(acc))
     if t == "lens":
-        inner = Mie(False, False) if th.get("inner", "mie") == "mie" else Tmatrix()
+        inner = {"mie": lambda: Mie(False, False), "tmatrix": Tmatrix,
+                 "ms": lambda: Multisphere(qeps1=1e-9, qeps2=1e-12, eps=1e-9)}[th.get("inner", "mie")]()
         return Lens(th["lens_angle"], inner, quad_npts_theta=th["q"][0], quad_npts_phi=th["q"][1])
     raise ValueError(t)
 
